@@ -398,6 +398,11 @@ func startPeer(kind string) (*peer, error) {
 					c.(*net.TCPConn).SetLinger(0)
 				case "garbage":
 					c.Write([]byte("\x00\xff not http at all\r\n\r\n"))
+				case "status500", "status400", "status404", "status200":
+					buf := make([]byte, 8192)
+					c.Read(buf)
+					body := "this server does not take that equipment\n"
+					fmt.Fprintf(c, "HTTP/1.1 %s Whatever\r\nContent-Type: text/plain\r\nContent-Length: %d\r\nConnection: close\r\n\r\n%s", kind[6:], len(body), body)
 				case "http500":
 					buf := make([]byte, 4096)
 					c.Read(buf)
